@@ -67,4 +67,92 @@ PROPS = {
         ],
         "assumptions": ["'cut short' = loss of a suffix of the log (the cut segment truncated, later segments absent)"],
     },
+    "C01": {
+        "modules": ["CasModel.Props.C01", "CasModel.Props.C17"],
+        "obligations": ["C01_index_refines_map", "applyAll_refines", "C01_remove_reports", "applyOp_spec",
+                        "kInsert_sorted", "kErase_sorted", "kLookup_kInsert", "kLookup_kErase", "C17_get_range"],
+        "full": ["C01_index_refines_map"],
+        "slices": [("c01", 120, 6000)],
+        "trusted": [
+            "model: Index.lean (apply_logical_op), Store.lean (event scripts of put/remove/remove_range/checkpoint/open and the read path), Keys.lean (key orders)",
+            "C01_index_refines_map is the index half (lookups, order, presence reports); that the file of the looked-up hash holds the committed bytes is the exact-CAS invariant (C07) + C06, at present tied by correspondence (every get/reader/getrange result and the full cas/ listing are compared after every step) rather than by a theorem over Store.lean",
+            "BTreeMap is modelled as a strictly sorted association list under the StrictOrder laws of the key type's Ord",
+        ],
+        "assumptions": ["operations are consistent: a put records size = size of the content with that hash (collision-freeness of BLAKE3 on the contents involved)", "range bounds are valid for BTreeMap::range (lo ≤ hi, not both excluded and equal)"],
+    },
+    "C12": {
+        "modules": ["CasModel.Props.C12"],
+        "obligations": ["C12_counts_exact", "C12_step", "applyAll_inv", "applyOp_spec", "applyPut_spec",
+                        "applyRemove_spec", "recompute_agrees", "rcKeys_iff", "incRef_spec", "decRef_spec"],
+        "full": ["C12_counts_exact"],
+        "slices": [("c12", 120, 6000)],
+        "trusted": [
+            "model: Index.lean; every Rust panic site of apply_logical_op (expect on decrement errors, assert_eq on sizes, debug-build underflow of the statistics) is an explicit IdxPanic outcome and the theorems show none is reachable",
+            "after restart / crash recovery: load+recompute establishes the same invariant — at present tied by correspondence (stats, blobs, sizes compared after every reopen and every crash image), the theorem covers the incremental/recomputed agreement (recompute_agrees)",
+            "u32 refcounts and u64 byte totals are unbounded naturals in the model (overflow needs 2^32 keys per blob / 2^64 bytes)",
+        ],
+        "assumptions": ["a put records size = sz hash (see C18); StrictOrder laws for the key order"],
+    },
+    "C07": {
+        "modules": ["CasModel.Props.C12", "CasModel.Props.C13"],
+        "obligations": ["C12_step", "applyOp_spec", "C13_abort_noop", "C13_open_tx_private"],
+        "full": ["C12_step"],
+        "slices": [("c07", 120, 6000)],
+        "trusted": [
+            "proved: apply_logical_op returns EXACTLY the hashes that lost their last reference (C12_step), for every state and operation; abandoned transactions leave no file behind (C13_abort_noop)",
+            "that delete_blobs unlinks exactly that list and commit_blob creates exactly the new blob is read off Store.lean's scripts and tied by correspondence: after every step of every history the listing of cas/ and staging/ (names, lengths, content hashes) is compared with the model and with the set of referenced contents",
+            "concurrent part (end of every error-free schedule) is covered by the schedule slices of C04",
+        ],
+        "assumptions": ["no operation in flight and none failed (quiescence)"],
+    },
+    "C13": {
+        "modules": ["CasModel.Props.C13"],
+        "obligations": ["C13_abort_noop", "C13_open_tx_private"],
+        "full": ["C13_abort_noop"],
+        "slices": [("c13", 120, 6000)],
+        "trusted": [
+            "model: Store.lean beginScript/abortScript + Fs.lean semantics of creat/write/unlink (FsLemmas)",
+            "in-memory state untouched before finish: by inspection of Transaction::new/write/Drop (no index access) — the driver's abort changes only World.txs; compared on every abort (iter/stats/blobs/dump before and after)",
+            "concurrent half (abort commutes with a committing transaction on the same key) belongs to the schedule slices",
+        ],
+        "assumptions": ["the staging name is fresh (tempfile's O_EXCL guarantee)"],
+    },
+    "C02": {
+        "modules": ["CasModel.Props.C03", "CasModel.Props.C12"],
+        "obligations": ["C02_reopen_transparent_records", "reachable_good", "recover_eq", "act_good", "recompute_agrees"],
+        "full": ["C02_reopen_transparent_records"],
+        "slices": [("c02", 120, 6000)],
+        "trusted": [
+            "record-level machine Proofs/WalMachine.lean mirrors src/wal/manager.rs + src/index/manager.rs (version allocation, segment placement (v-1)/N, replay skipping ≤ snapshot version, next = highest+1, prune rule j < segment(snapshot version on disk)); the theorem quantifies over all action sequences, N, state/record types",
+            "that Store.lean's byte-level scripts perform exactly these actions is tied by correspondence: full syscall trace, raw bytes of index and every segment, and all API observations are compared after every step and every reopen (N ∈ {1,2,3,5,10000}, Sync/Async)",
+            "stats.index.serialized_size_bytes is compared as 'size of the index file or 0', not demanded equal across a reopen that legitimately rewrites the snapshot",
+        ],
+        "assumptions": ["codec round-trips (C16) connect records to bytes; collision-free checksums"],
+    },
+    "C03": {
+        "modules": ["CasModel.Props.C03", "CasModel.Props.C10"],
+        "obligations": ["C03_crash_atomic_records", "reachable_good", "act_good", "recover_eq", "GInv.append", "GInv.install",
+                        "GInv.prune", "GInv.addEmpty", "C10_truncation_segment", "C16_segment_roundtrip"],
+        "full": ["C03_crash_atomic_records"],
+        "slices": [("c03", 40, 1500)],
+        "trusted": [
+            "crash model: a filesystem call is atomic and completed calls persist (process kill); granularity = the interposer's mutating calls = the model's events",
+            "record-level theorem: crash = `crash` action anywhere in any action sequence, incl. inside first initialisation and inside recovery (nested); one logged operation = one record = one action, so it is all-or-nothing",
+            "tie to bytes/syscalls: Store.lean event scripts vs the real syscall trace (compared event by event), and kill-mode crash images at EVERY counted call of the targeted operation reopened by the real code and by the model (logical), plus nested crashes inside recovery",
+            "blob files: the in-flight put's blob is renamed into cas/ before its record is written and old blobs are unlinked after — read off the scripts, compared in the trace, and judged by the oracle (every recovered key readable)",
+        ],
+        "assumptions": ["fault-free apart from the crash; collision-free checksums"],
+    },
+    "C20": {
+        "modules": ["CasModel.Props.C03", "CasModel.Props.C10"],
+        "obligations": ["C20_wellformed_records", "reachable_good", "segInsert_sorted", "flat_segInsert_some",
+                        "C16_segment_roundtrip", "C16_index_roundtrip"],
+        "full": ["C20_wellformed_records"],
+        "slices": [("c20", 40, 1500)],
+        "trusted": [
+            "record-level invariant (versions strictly increasing and never reused, placement (v-1)/N, snapshot = state up to its version, every logged record above it present) proved for every action sequence with crashes anywhere",
+            "independent reader: the Lean driver parses the REAL index and *_index.wal bytes (own BLAKE3) at every crash image and after every step — dump and `logical` are compared with the real recovery",
+        ],
+        "assumptions": ["as C03"],
+    },
 }
